@@ -980,6 +980,29 @@ def build_evqe(setup: dict, criterion=None):
     return solver, call, parts
 
 
+def _twinned(population, twins):
+    """setup["twins"] = [a, b] (two different numbers with hash(a) == hash(b), e.g. -1.0 and -2.0, which CPython hashes alike):
+    the first two individuals of the initial population become the first individual's layers with every angle a, and the same
+    layers with every angle b — different circuits, equal as EVQEIndividuals (their __eq__ compares hashes); when there is a
+    third individual it becomes a genuine duplicate of the first.  A caller's population_initializer may return any valid
+    population, and an optimiser may return integral angles."""
+    if not twins:
+        return population
+    from queasars.minimum_eigensolvers.evqe.evolutionary_algorithm.individual import EVQEIndividual
+    from queasars.minimum_eigensolvers.evqe.evolutionary_algorithm.population import EVQEPopulation
+
+    inds = list(population.individuals)
+    first = inds[0]
+    k = len(first.parameter_values)
+    mk = lambda x: EVQEIndividual(n_qubits=first.n_qubits, layers=first.layers, parameter_values=tuple([x] * k))  # noqa: E731
+    inds[0] = mk(twins[0])
+    if len(inds) > 1:
+        inds[1] = mk(twins[1])
+    if len(inds) > 2:
+        inds[2] = mk(twins[0])
+    return EVQEPopulation(individuals=tuple(inds), species_representatives=None, species_members=None, species_membership=None)
+
+
 def build_package_solver(setup: dict, criterion=None):
     """A real EvolvingAnsatzMinimumEigensolver assembled through the public base configuration from the package's own
     operators: EVQESpeciation, EVQESelection and (setup["p_topo"] > 0) EVQETopologicalSearch, with a population
@@ -1001,9 +1024,9 @@ def build_package_solver(setup: dict, criterion=None):
     switch = FailSwitch()
     est = ConfiguredEstimatorV2(estimator=exact_estimator(switch), precision=0.0) if setup["evaluator"] == "estimator" else None
     cfg = EvolvingAnsatzMinimumEigensolverConfiguration(
-        population_initializer=lambda n_qubits: EVQEPopulation.random_population(
+        population_initializer=lambda n_qubits: _twinned(EVQEPopulation.random_population(
             n_qubits=n_qubits, n_layers=setup["n_initial_layers"], n_individuals=setup["population_size"],
-            randomize_parameter_values=True, random_seed=setup["seed"]),
+            randomize_parameter_values=True, random_seed=setup["seed"]), setup.get("twins")),
         evolutionary_operators=ops,
         configured_sampler=ConfiguredSamplerV2(sampler=ExactSampler(switch=switch), shots=setup["shots"]),
         configured_estimator=est,
